@@ -142,7 +142,7 @@ class C13(Check):
             directed, assort, wfile = rng.random() < 0.5, rng.random() < 0.5, rng.random() < 0.4
             K = rng.choice([2, 2, 3, 4])
             N = rng.randint(2, 6)
-            labels = rng.sample([0, 1, 2, 3, 5, 8, 13, 21, 100, 4096, 123456789], N)
+            labels = rng.sample([0, 1, 2, 3, 5, 8, 13, 21, 100, 4096, 123456789, 2 ** 31, 2 ** 32 + 3, 3000000000, 10 ** 15], N)
             recs, L = gen.records(rng, N=N, wt="u", labels=labels)
             opts = {"k": K}
             if rng.random() < 0.6:
